@@ -761,7 +761,10 @@ class C05(Prop):
         # objects with many members drawn from one key pool: a larger one, then a smaller one, then one in between
         # (a recycled key buffer keeps a stale tail), and dense random subsets; enumerated by wildcard, filter, descent
         for i in range(max(20, n // 25)):
-            pool = sorted(set(r.choice(['a', 'k', 'z']).encode() + b'%02d' % r.randint(0, 11) for _ in range(r.randint(12, 18))))
+            pool = set()
+            while len(pool) < 12:
+                pool.add(r.choice(['a', 'k', 'z']).encode() + b'%02d' % r.randint(0, 11))
+            pool = sorted(pool | set(r.choice(['a', 'k', 'z']).encode() + b'%02d' % r.randint(0, 11) for _ in range(r.randint(0, 6))))
             def sub(keys):
                 return ('o', [(k, ('n', float(pool.index(k)))) for k in r.sample(keys, len(keys))])
             docs = []
